@@ -222,7 +222,7 @@ def consts(fn):
     """constants of the `val = (val << a) + x; valb += b; ... (val >> valb) & m; valb -= c` accumulator scheme.
     Only statements of exactly that shape contribute; a differently shaped (possibly correct) algorithm yields empty
     sets, which the caller reports as inconclusive, not as a violation."""
-    out = {"shift_in": set(), "count_add": set(), "count_sub": set(), "mask": set(), "init": set(), "emit_cmp": set(), "tail": set()}
+    out = {"shift_in": set(), "count_add": set(), "count_sub": set(), "mask": set(), "init": set(), "emit_cmp": set(), "tail": set(), "keep": set(), "added": []}
     counters = {}
     for n in ir.walk_expr(fn):
         if n.get("kind") == "VarDecl" and ir.qtype(n) == "int" and ir.ekids(n):
@@ -237,8 +237,19 @@ def consts(fn):
         if k == "BinaryOperator" and n.get("opcode") == "=":
             t = ir.sx(n)
             x, rhs = t[2], t[3]
+            keep = None
+            if rhs[0] == "bin" and rhs[1] == "&" and lit(rhs[3]) is not None:      # val = ((val << a) + e) & keepmask
+                keep, rhs = lit(rhs[3]), rhs[2]
             if x[0] == "ref" and rhs[0] == "bin" and rhs[1] == "+" and rhs[2][0] == "bin" and rhs[2][1] == "<<" and rhs[2][2] == x and lit(rhs[2][3]) is not None:
                 out["shift_in"].add(lit(rhs[2][3]))
+                if keep is not None:
+                    out["keep"].add(keep)
+                # the node of the added term (second operand of +), for the zero-extension obligation
+                plus = ir.strip(ir.ekids(n)[1])
+                if plus.get("kind") == "BinaryOperator" and plus.get("opcode") == "&":
+                    plus = ir.strip(ir.ekids(plus)[0])
+                if plus.get("kind") == "BinaryOperator" and plus.get("opcode") == "+":
+                    out["added"].append(ir.ekids(plus)[1])
         if k == "CompoundAssignOperator":
             t = ir.sx(n)
             if t[2][0] == "ref" and t[2][1] in counters and lit(t[3]) is not None:
@@ -284,6 +295,32 @@ def rule_acc(rep, d, dec, enc):
                 rep.holds("C13.acc", name, what, where=d.where(fn), detail=str(sorted(got)))
             else:
                 rep.violates("C13.acc", name, what, where=d.where(fn), detail="found %s, the %d-in/%d-out scheme needs %s" % (sorted(got), nin, nout, sorted(want)))
+        # a mask applied to the accumulator must keep every pending bit: nin + nout - gcd(nin, nout) bits
+        import math
+        need = nin + nout - math.gcd(nin, nout)
+        for kmask in sorted(c["keep"]):
+            bits = kmask.bit_length() if (kmask & (kmask + 1)) == 0 else 0
+            if bits >= need:
+                rep.holds("C13.acc", name, "accumulator mask", where=d.where(fn), detail="keeps %d bits, %d can be pending" % (bits, need))
+            else:
+                rep.violates("C13.acc", name, "accumulator mask", where=d.where(fn),
+                             detail="the accumulator is masked with %#x (%d low bits) but up to %d bits are pending before emission" % (kmask, bits, need))
+        # the value shifted in must be zero-extended and fit the nin-bit slot (encoder: a byte; decoder: table entries are 0..63 by C13.alpha)
+        if fn is enc:
+            env = {}
+            for v in ir.walk_expr(fn):
+                if v.get("kind") == "VarDecl" and ir.ekids(v):
+                    tr = trange.type_range(ir.qtype(v))
+                    iv = trange.interval(ir.ekids(v)[-1], env)
+                    if tr is not None:
+                        env[v.get("id")] = iv if (iv is not None and tr[0] <= iv[0] and iv[1] <= tr[1]) else tr
+            for a in c["added"]:
+                iv = trange.interval(a, env)
+                if iv is not None and 0 <= iv[0] and iv[1] <= (1 << nin) - 1:
+                    rep.holds("C13.acc", name, "shifted-in value", where=d.where(a), detail="in [%d,%d]" % iv)
+                else:
+                    rep.violates("C13.acc", name, "shifted-in value", where=d.where(a),
+                                 detail="`%s` ranges over %s: a byte >= 0x80 is sign-extended into the pending bits instead of contributing 8 bits" % (d.text(a)[:40], iv))
         if fn is enc:
             if not c["tail"]:
                 rep.inconclusive("C13.acc", name, "tail group", where=d.where(fn), detail="tail expression not recognised")
